@@ -58,7 +58,7 @@ def replay_external(path):
                            capture_output=True, text=True, timeout=300)
     except subprocess.TimeoutExpired:
         return True, 'replay timed out (non-termination)'
-    return r.returncode == 1, (r.stdout + r.stderr)[-1500:]
+    return (r.returncode == 1 and 'REPLAY-VERDICT REPRODUCED' in r.stdout), (r.stdout + r.stderr)[-1500:]
 
 
 def run_all(jobs, workers):
